@@ -622,7 +622,8 @@ def run(tier, seed, t0):
                                                                  (1, 0.5), (1, 0.5), (10, 6)):
         cfgs.append({"label": label, "title": title, "legend": legend, "xLim": xl, "yLim": yl, "font": font})
     eps = list(entry_points())
-    ep_sel = eps if tier == "thorough" else ["SP.phaseDiagramPlot", "plots.multiple_uverskyPlot2"]
+    ep_sel = eps if tier == "thorough" else ["SP.phaseDiagramPlot", "plots.multiple_uverskyPlot2", "SP.uverskyPlot", "plots.single_uverskyPlot",
+                                             "plots.multiple_phasePlot"]
     for ep in ep_sel:
         for c in cfgs:
             cases.append({"kind": "config", "ep": ep, "cfg": c})
@@ -632,7 +633,7 @@ def run(tier, seed, t0):
         for fmt in ("png", "pdf", "svg"):
             cases.append({"kind": "config", "ep": ep, "cfg": dict(dflt, label=None if "multiple" in ep else ""), "fmt": fmt,
                           "write": fmt != "png" or tier == "thorough"})
-    lin_seqs = ["KEGKE", "KKEEGGSSPP", "GKRDESTYPAG"] + (["KEKEKEGGGGPPPPKKKKEEEE"] if tier == "thorough" else [])
+    lin_seqs = ["KEGKE", "KKEEGGSSPP", "GKRDESTYPAG", ("KEGGSR" * 40)[:221]] + (["KEKEKEGGGGPPPPKKKKEEEE", ("RGGSSE" * 60)[:300]] if tier == "thorough" else [])
     for s in lin_seqs:
         for w in ((1, 2, 5) if tier == "quick" else range(1, min(len(s), 8) + 1)):
             if w <= len(s):
